@@ -91,6 +91,8 @@ def curated():
                               "relations": [["conflict", "B", "A", "L"], ["before", "T0", "T2", False]]}
     D["schedule_before"] = {"items": [M("A", iw=0), M("B", iw=0, ready=["run_or", "A"]), T("T0", [call("A")]), T("T1", [call("B")])],
                             "relations": [["before", "A", "B", False]]}
+    D["schedule_before_conflicting"] = {"items": [M("A", iw=0), M("B", iw=0, ready=["run_or", "A"]), M("C", iw=0, ow=0), T("T0", [call("A"), call("C", en=True)]), T("T1", [call("B"), call("C")])],
+                                        "relations": [["before", "A", "B", False]]}
     D["ready_dependent"] = {"items": [T("T0"), T("T1", [wit("comb")])], "relations": [["before", "T0", "T1", True]]}
     D["method_in_if"] = {"items": [T("T0", [If([{"k": "method", "name": "MN", "iw": 0, "ow": 1, "ready": "free", "body": [wit("comb")]}])]), T("T1", [call("MN")])]}
     D["three_way"] = {"items": [M("A"), M("B"), M("C"), T("T0", [call("A"), call("B")]), T("T1", [call("B"), call("C")]), T("T2", [call("C"), call("A")])]}
@@ -115,12 +117,26 @@ def cond_designs():
     D["cond_shared_callee"] = {"items": [M("A", iw=0), M("B", iw=0, ow=0), T("T0", [cond([[call("A")], [call("A"), call("B")], [call("B")]], priority=True)]), T("T1", [call("A")])]}
     D["cond_two_blocks"] = {"items": [M("A", iw=0), M("B", iw=0, ow=0), T("T0", [cond([[call("A")]], nonblocking=True), cond([[call("B")], []], default=[wit("comb")])])]}
     D["cond_nested"] = {"items": [M("A", iw=0), M("B", iw=0, ow=0), M("C", iw=0, ow=0), T("T0", [cond([[call("A"), cond([[call("B")]], default=[call("C")])], [call("C")]])])]}
-    D["cond_in_if"] = {"items": [M("A", iw=0), M("B", iw=0, ow=0), T("T0", [If([cond([[call("A")], [call("B")]], nonblocking=True)], els=[call("A")])])]}
+    D["cond_in_if"] = {"items": [M("A", iw=0), M("B", iw=0, ow=0), M("C", iw=0, ow=0), T("T0", [If([cond([[call("A")], [call("B")]], nonblocking=True)], els=[call("C")])])]}
     D["cond_calls_in_if"] = {"items": [M("A", iw=0), M("B", iw=0, ow=0), T("T0", [cond([[If([call("A")], els=[call("B")])], [call("B", en=True)]], priority=True)])]}
     return D
 
 
 # ------------------------------------------------------------------------------------------------
+def _matches(pat, v):
+    return all(ch == "-" or int(ch) == ((v >> (len(pat) - 1 - i)) & 1) for i, ch in enumerate(pat))
+
+
+def reachable_patterns(pats):
+    """drop switch patterns that are completely shadowed by earlier ones (an unreachable case would make the
+    spec-level 'can be active together' differ from the library's syntactic notion)"""
+    out = []
+    for p in pats:
+        if any(_matches(p, v) and not any(_matches(q, v) for q in out) for v in range(1 << len(p))):
+            out.append(p)
+    return out
+
+
 def random_spec(rng, max_t=3, max_m=3, allow_relations=True, allow_nested=True):
     nm = rng.randint(1, max_m)
     nt = rng.randint(1, max_t)
@@ -156,8 +172,10 @@ def random_spec(rng, max_t=3, max_m=3, allow_relations=True, allow_nested=True):
                 nb = rng.randint(1, 3)
                 out.append(If(*[rblock(callable_ms, depth + 1, budget) for _ in range(nb)], els=rblock(callable_ms, depth + 1, budget) if rng.random() < 0.6 else None))
             elif depth < 2 and r < 0.9:
-                pats = rng.sample(["00", "01", "1-", "-1", "11"], rng.randint(1, 3))
-                out.append(Sw(2, [(p, rblock(callable_ms, depth + 1, budget)) for p in pats], default=rblock(callable_ms, depth + 1, budget) if rng.random() < 0.5 else None))
+                pats = reachable_patterns(rng.sample(["00", "01", "1-", "-1", "11"], rng.randint(1, 3)))
+                uncovered = any(not any(_matches(q, v) for q in pats) for v in range(4))
+                dflt = rblock(callable_ms, depth + 1, budget) if rng.random() < 0.5 else None
+                out.append(Sw(2, [(p, rblock(callable_ms, depth + 1, budget)) for p in pats], default=dflt if uncovered else None))
             elif depth < 2:
                 out.append(Fsm(*[rblock(callable_ms, depth + 1, budget) for _ in range(rng.randint(2, 3))]))
         return out
@@ -197,3 +215,66 @@ def with_scheduler(spec, sched):
     s = copy.deepcopy(spec)
     s["scheduler"] = sched
     return s
+
+
+def rr_designs():
+    D = {}
+    for k in range(1, 6):
+        D[f"rr_{k}_share_method"] = {"items": [M("M0")] + [T(f"T{i}", [call("M0", en=(i % 2 == 1))]) for i in range(k)]}
+    D["rr_two_components"] = {"items": [M("A", iw=0), M("B", iw=0), T("T0", [call("A")]), T("T1", [call("A")]), T("T2", [call("B")]), T("T3", [call("B")]), T("T4", [wit("comb")])]}
+    D["rr_chain"] = {"items": [M("A", iw=0), M("B", iw=0), T("T0", [call("A")]), T("T1", [call("A"), call("B")]), T("T2", [call("B")])]}
+    D["rr_explicit"] = {"items": [M("A", iw=0), T("T0"), T("T1", [call("A")]), T("T2", [If([call("A")])]), T("T3")], "relations": [["conflict", "T0", "T1", "L"], ["conflict", "T3", "T0", "U"]]}
+    D["rr_validators"] = {"items": [M("V", validate=True), T("T0", [call("V")]), T("T1", [call("V", en=True)]), T("T2", [If([call("V")])])]}
+    return D
+
+
+# ------------------------------------------------------------------------------------------------
+# single-defect mutants for C11 (and their accepted neighbours)
+def c11_cases():
+    """name -> (spec, expected: 'reject' | 'accept', defect kind)"""
+    C = {}
+    base_m = lambda **kw: M("M0", **kw)
+    # double call of an exclusive method on non-exclusive paths, at call depth 1, 2, 3
+    C["double_call_d1"] = ({"items": [base_m(), T("T0", [call("M0"), call("M0")])]}, "reject", "double call")
+    C["double_call_d1_parallel_ifs"] = ({"items": [base_m(), T("T0", [If([call("M0")]), If([call("M0")])])]}, "reject", "double call")
+    C["double_call_d1_enable"] = ({"items": [base_m(), T("T0", [call("M0", en=True), call("M0", en=True)])]}, "reject", "double call")
+    C["double_call_d2"] = ({"items": [base_m(), M("A", [call("M0")], iw=0, ow=0), T("T0", [call("A"), call("M0")])]}, "reject", "double call")
+    C["double_call_d3"] = ({"items": [base_m(), M("B", [call("M0")], iw=0, ow=0), M("A", [call("B")], iw=0, ow=0), M("C", [call("M0")], iw=0, ow=0), T("T0", [call("A"), call("C")])]}, "reject", "double call")
+    C["double_call_in_method_root"] = ({"items": [base_m(), M("A", [call("M0"), call("M0")], iw=0, ow=0), T("T0", [wit("comb")])]}, "reject", "double call")
+    C["double_call_nested_if_else_then_again"] = ({"items": [base_m(), T("T0", [If([call("M0")], els=[call("M0")]), call("M0", en=True)])]}, "reject", "double call")
+    C["double_call_via_nonexclusive_with_exclusive_tree"] = ({"items": [base_m(), M("N", [call("M0")], iw=0, ow=0, nonexclusive=True), T("T0", [call("N"), call("N")])]}, "reject", "double call")
+    # accepted neighbours
+    C["ok_if_else"] = ({"items": [base_m(), T("T0", [If([call("M0")], els=[call("M0")])])]}, "accept", None)
+    C["ok_elif_chain"] = ({"items": [base_m(), T("T0", [If([call("M0")], [call("M0")], [call("M0")], els=[call("M0")])])]}, "accept", None)
+    C["ok_switch"] = ({"items": [base_m(), T("T0", [Sw(2, [("00", [call("M0")]), ("01", [call("M0")]), ("1-", [call("M0")])], default=[call("M0")])])]}, "accept", None)
+    C["ok_fsm"] = ({"items": [base_m(), T("T0", [Fsm([call("M0")], [call("M0")], [call("M0")])])]}, "accept", None)
+    C["ok_d2_if_else"] = ({"items": [base_m(), M("A", [call("M0")], iw=0, ow=0), T("T0", [If([call("A")], els=[call("M0")])])]}, "accept", None)
+    C["ok_d3_switch"] = ({"items": [base_m(), M("B", [call("M0")], iw=0, ow=0), M("A", [call("B")], iw=0, ow=0), M("C", [call("M0")], iw=0, ow=0),
+                                    T("T0", [Sw(1, [("0", [call("A")]), ("1", [call("C")])])])]}, "accept", None)
+    C["ok_nonexclusive_twice_no_exclusive_in_tree"] = ({"items": [M("N", iw=0, ow=1, nonexclusive=True), M("N2", [call("N")], iw=0, ow=0, nonexclusive=True),
+                                                                  T("T0", [call("N"), call("N"), call("N2"), call("N2", en=True)])]}, "accept", None)
+    C["ok_nested_if_inside_else"] = ({"items": [base_m(), T("T0", [If([call("M0")], els=[If([call("M0")], els=[call("M0")])])])]}, "accept", None)
+    # recursion through 1, 2, 3 methods
+    C["recursion_1"] = ({"items": [M("A", [call("A")], iw=0, ow=0), T("T0", [call("A")])]}, "reject", "recursion")
+    C["recursion_2"] = ({"items": [M("A", [call("B")], iw=0, ow=0), M("B", [If([call("A")])], iw=0, ow=0), T("T0", [call("A")])]}, "reject", "recursion")
+    C["recursion_3"] = ({"items": [M("A", [call("B")], iw=0, ow=0), M("B", [call("C")], iw=0, ow=0), M("C", [call("A", en=True)], iw=0, ow=0), T("T0", [call("A")])]}, "reject", "recursion")
+    C["recursion_uncalled"] = ({"items": [M("A", [call("A")], iw=0, ow=0), T("T0", [wit("comb")])]}, "reject", "recursion")
+    C["ok_chain_no_recursion"] = ({"items": [M("C", iw=0, ow=0), M("B", [call("C")], iw=0, ow=0), M("A", [call("B")], iw=0, ow=0), T("T0", [call("A")])]}, "accept", None)
+    # cyclic priorities of length 2 and 3
+    C["priority_cycle_2"] = ({"items": [T("T0"), T("T1")], "relations": [["conflict", "T0", "T1", "L"], ["conflict", "T1", "T0", "L"]]}, "reject", "priority cycle")
+    C["priority_cycle_2_lr"] = ({"items": [T("T0"), T("T1")], "relations": [["conflict", "T0", "T1", "L"], ["conflict", "T0", "T1", "R"]]}, "reject", "priority cycle")
+    C["priority_cycle_3"] = ({"items": [T("T0"), T("T1"), T("T2")], "relations": [["conflict", "T0", "T1", "L"], ["conflict", "T1", "T2", "L"], ["conflict", "T2", "T0", "L"]]}, "reject", "priority cycle")
+    C["priority_cycle_methods"] = ({"items": [M("A", iw=0), M("B", iw=0), T("T0", [call("A")]), T("T1", [call("B")])], "relations": [["conflict", "A", "B", "L"], ["conflict", "T1", "T0", "L"]]}, "reject", "priority cycle")
+    C["ok_priority_chain_3"] = ({"items": [T("T0"), T("T1"), T("T2")], "relations": [["conflict", "T0", "T1", "L"], ["conflict", "T1", "T2", "L"], ["conflict", "T0", "T2", "L"]]}, "accept", None)
+    C["ok_priority_undefined_cycle"] = ({"items": [T("T0"), T("T1"), T("T2")], "relations": [["conflict", "T0", "T1", "U"], ["conflict", "T1", "T2", "U"], ["conflict", "T2", "T0", "U"]]}, "accept", None)
+    # single_caller
+    C["single_caller_two_transactions"] = ({"items": [M("S", single_caller=True), T("T0", [call("S")]), T("T1", [call("S")])]}, "reject", "single_caller")
+    C["single_caller_via_method_and_transaction"] = ({"items": [M("S", iw=0, single_caller=True), M("A", [call("S")], iw=0, ow=0), T("T0", [call("A")]), T("T1", [call("S")])]}, "reject", "single_caller")
+    C["ok_single_caller_once"] = ({"items": [M("S", single_caller=True), T("T0", [call("S")]), T("T1", [wit("comb")])]}, "accept", None)
+    # ready-dependent on a conflicting transaction
+    C["ready_dep_conflict_explicit"] = ({"items": [T("T0"), T("T1")], "relations": [["before", "T0", "T1", True], ["conflict", "T0", "T1", "U"]]}, "reject", "ready dependency on conflicting")
+    C["ready_dep_conflict_shared_method"] = ({"items": [M("A", iw=0), T("T0", [call("A")]), T("T1", [call("A")])], "relations": [["before", "T0", "T1", True]]}, "reject", "ready dependency on conflicting")
+    C["ready_dep_nested_shares_method"] = ({"items": [M("A", iw=0), T("T0", [call("A"), {"k": "trans", "name": "TN", "ready": "free", "body": [call("A")]}])]}, "reject", "ready dependency on conflicting")
+    C["ok_ready_dep_no_conflict"] = ({"items": [M("A", iw=0), M("B", iw=0), T("T0", [call("A")]), T("T1", [call("B")])], "relations": [["before", "T0", "T1", True]]}, "accept", None)
+    C["ok_nested_distinct_methods"] = ({"items": [M("A", iw=0), M("B", iw=0), T("T0", [call("A"), {"k": "trans", "name": "TN", "ready": "free", "body": [call("B")]}])]}, "accept", None)
+    return C
